@@ -7,7 +7,8 @@ Program AST (JSON-able):
   goal   ['call',name,[terms]] | ['=',t,t] | ['\\=',t,t] | ['ite',c,t,e] | ['or',a,b] | ['and',[goals]]
          | ['not',g] | ['cut'] | ['once',g] | ['findall',t,g,t] | ['calln',t,[terms]] | ['pyp',t]
   clause [name,[head terms],goal-or-None]
-Mirrors the engine where it deviates from ISO: no occurs check (a case that needs a cyclic term raises
+Mirrors the engine where it deviates from ISO: head arguments that are plain once-occurring variables are
+aliased to the actual arguments, no occurs check (a case that needs a cyclic term raises
 Cyclic and is not compared), findall does not rename the unbound variables of its results, dynamic facts
 are tried before compiled clauses, pyp(X) is X = a ; X = c and raises Boom at its j-th call.
 """
@@ -197,9 +198,20 @@ class Interp:
                 yield s1
         for c in self.db.get(key, []):
             m = {}
+            # the compiler ALIASES a head argument that is a plain variable occurring once among the
+            # top-level head arguments to the actual argument (no new variable, no unification); this is
+            # observable when findall returns an unbound variable, so the reference mirrors it
+            tops = [t[1] for t in c[1] if t[0] == 'V']
+            aliased = set()
+            for i, t in enumerate(c[1]):
+                if t[0] == 'V' and tops.count(t[1]) == 1:
+                    m[('V', t[1])] = args[i]
+                    aliased.add(i)
             h = self.rename(c[1], m)
             s1 = s
-            for x, y in zip(args, h):
+            for i, (x, y) in enumerate(zip(args, h)):
+                if i in aliased:
+                    continue
                 s1 = unify(x, y, s1)
                 if s1 is None:
                     break
